@@ -63,8 +63,17 @@ def _observe(source, target, tb, fb, items):
     ss, ts = [geoms.to_spec(g) for g in source], [geoms.to_spec(g) for g in target]
     low = any(s["type"] in geoms.ZERO_ONE_D for s in ss + ts)
     if low and not (tb > 0 and fb > 0):
-        c.ood("match:zero_buffer_with_0_or_1d_geometry")
-        return
+        # an explicit zero buffer is a legitimate request (points then have no area: nothing overlaps them); what the
+        # pair affinities are is C06 / C11's business, so the matching is judged against compute_affinity with the SAME
+        # buffers -- unless that itself fails (open C11 finding: zero buffer on a domain edge)
+        try:
+            for s_ in list(source)[:6]:
+                for t_ in list(target)[:6]:
+                    _affinity(s_, t_, tb, fb)
+        except Exception:
+            c.ood("match:zero_buffer_with_0_or_1d_geometry:affinity_undefined")
+            return
+        c.mon("match.zero_buffer_streams")
     if not all(geoms.is_shapely_valid(g) for g in list(source) + list(target)):
         c.ood("match:invalid_geometry")
         return
@@ -167,6 +176,9 @@ def judge(ctx, ss, ts, tb, fb):
         tb3, fb3 = (tb * 8, fb * 4) if tb < 0.1 else (tb / 8, fb / 4)
         list(M.match_geometries(src, tgt, time_buffer=tb3, freq_buffer=fb3))
     except Exception as e:
+        if not (tb > 0 and fb > 0) and any(x["type"] in geoms.ZERO_ONE_D for x in ss + ts):
+            ctx.ood("match:zero_buffer_with_0_or_1d_geometry:raises")      # open C11 finding territory
+            return
         ctx.violate_exc("raises", f"raises:{type(e).__name__}", e, spec=spec)
 
 
@@ -247,7 +259,7 @@ def run(ctx):
                 ts = [geoms.geom_in_box(rng, rng.choice(pool), *b) for b in bt]
                 if arr == "duplicates" and ss and ts:
                     ts = [ss[0]] * len(ts) if rng.random() < 0.5 else ts
-                tb, fb = rng.choice([(0.01, 100.0), (0.001, 10.0), (0.5, 2000.0)])
+                tb, fb = rng.choice([(0.01, 100.0), (0.001, 10.0), (0.5, 2000.0), (0.01, 100.0), (0.0, 100.0), (0.01, 0.0), (0.0, 0.0)])
                 ctx.case((n, m, arr, mix), {"source": ss, "target": ts, "tb": tb, "fb": fb}, nontrivial=bool(n and m))
                 judge(ctx, ss, ts, tb, fb)
     # a few larger inputs (coverage / pairing rules judged, optimality not)
